@@ -1,0 +1,25 @@
+//go:build verif
+
+package terminal
+
+// Contracts for property C44 (control character neutralisation). Comment-only
+// file, compiled only under the "verif" build tag; "//@" lines are read by
+// govc. Bytes: 10 = LF, 13 = CR, 27 = ESC, 94 = '^', 91 = '[', 92 = '\\',
+// 114 = 'r'.
+
+// The package initialiser builds the replacer from exactly the pairs
+// ESC -> "^[" and CR -> "\\r" (proved for init, assumed elsewhere: nothing else
+// in the package assigns the variable).
+//@ pkginv[keys] controlCharacterNeutralizer != nil && forall b in 0..256 :: (replkey(controlCharacterNeutralizer, b) <==> (b == 27 || b == 13))
+//@ pkginv[imgs] rimg(controlCharacterNeutralizer, 27) == "^[" && rimg(controlCharacterNeutralizer, 13) == "\\r"
+
+//@ func init
+
+// The result never contains ESC or CR; line structure is kept: a value that is
+// exactly one LF-terminated line stays exactly one LF-terminated line, and a
+// value without LF yields a result without LF.
+//@ func NeutralizeControlCharacters
+//@   pure
+//@   ensures[nocontrol] forall k in 0..len(result) :: (result[k] != 27 && result[k] != 13)
+//@   ensures[keepline] (len(value) >= 1 && value[len(value)-1] == 10 && (forall i in 0..len(value)-1 :: value[i] != 10)) ==> (len(result) >= 1 && result[len(result)-1] == 10 && (forall k in 0..len(result)-1 :: result[k] != 10))
+//@   ensures[nolf] (forall i in 0..len(value) :: value[i] != 10) ==> (forall k in 0..len(result) :: result[k] != 10)
